@@ -410,15 +410,20 @@ class TimeRecurrence:
                 "Invalid type for addition: '{0}' should be Duration."
                 .format(type(other).__name__)
             )
+        duration = self._duration
+        if duration is None:
+            # A single date-time: __init__ normalised the interval away, a
+            # zero interval gives the same recurrence in the same format.
+            duration = Duration(years=0)
         if self._format_number == 1:
             kwargs = {"start_point": self._start_point + other,
                       "end_point": self._second_point + other}
         elif self._format_number == 3:
             kwargs = {"start_point": self._start_point + other,
-                      "duration": self._duration}
+                      "duration": duration}
         elif self._format_number == 4:
             kwargs = {"end_point": self._end_point + other,
-                      "duration": self._duration}
+                      "duration": duration}
         return self.__class__(
             repetitions=self._repetitions, **kwargs,
             min_point=self._min_point, max_point=self._max_point)
